@@ -565,12 +565,26 @@ class JSONPathEnvironment:
         if operator == "<=":
             return self._lt(left, right) or self._eq(left, right)
         if operator == "in" and isinstance(right, (Mapping, Sequence)):
-            return left in right
+            return self._contains(right, left)
         if operator == "contains" and isinstance(left, (Mapping, Sequence)):
-            return right in left
+            return self._contains(left, right)
         if operator == "=~" and isinstance(right, re.Pattern) and isinstance(left, str):
             return bool(right.fullmatch(left))
         return False
+
+    def _contains(self, container: object, item: object) -> bool:
+        if item is UNDEFINED or (isinstance(item, NodeList) and item.empty()):
+            # Nothing is not a member of anything, not even of an array that
+            # contains an empty array.
+            return False
+        if isinstance(container, str):
+            # Only a string can be a substring of a string.
+            return isinstance(item, str) and item in container
+        try:
+            return item in container  # type: ignore
+        except TypeError:
+            # Unhashable item tested against mapping keys, for example.
+            return False
 
     def _eq(self, left: object, right: object) -> bool:  # noqa: PLR0911
         if isinstance(right, NodeList):
